@@ -20,7 +20,8 @@ RULE = ("Episodes = template net + 10-35 seeded ops: edits (setpoints, taps, in_
         "and probes. A probe runs one calculation on the live object and on a scrubbed deep copy of the "
         "current state and compares outcome class and result tables. Non-trivial = the probe was conclusive "
         "(both sides produced comparable outcomes); distinct = distinct (probe kind+option class, abstracted "
-        "history since the previous probe [op families, length<=4], outcome class).")
+        "history since the previous probe [op families, length<=4], outcome class)."
+        ' Element table rows are reordered between calculations; explicit start vector forms; the init-results judgement needs ordinary operating points and Newton-Raphson.')
 COMPONENTS = {"real": ["all pandapower calculation pipelines on the live net", "the same pipelines on the scrubbed copy "
                        "(reference)"], "stub": ["none"]}
 ASSUMPTIONS = ["a scrubbed deep copy (results reset, all _-prefixed internal state reset) is 'a fresh copy of the "
